@@ -31,6 +31,13 @@ func TestC05Runs(t *testing.T) {
 	r := kit.NewRand(kit.Seed() + 5)
 	dir := t.TempDir()
 	knownFindingWitness(o, dir)
+	// the limit ends the triggering while an earlier iteration is still in flight and never
+	// finishes: max-duration and then the completion timeout must still bound the run
+	for k, mode := range []string{"constant", "staged", "ramp", "gaussian"} {
+		for rep := 0; rep < kit.N(1, 4); rep++ {
+			oneRun(o, r, dir, 1000+10*k+rep, mode, "limit-straggler", "first-never-finishes")
+		}
+	}
 	n := kit.N(24, 240)
 	for i := 0; i < n; i++ {
 		mode := runkit.Modes[i%len(runkit.Modes)]
@@ -51,6 +58,7 @@ func oneRun(o *kit.Out, r *kit.Rand, dir string, idx int, mode, ending, body str
 	maxDur := time.Duration(r.Range(120, 300)) * time.Millisecond
 	var startedN, finishedN atomic.Int64
 	var lastStart atomic.Int64
+	var firstBody atomic.Bool
 	release := make(chan struct{})
 	var relOnce sync.Once
 	t0 := time.Now()
@@ -73,6 +81,13 @@ func oneRun(o *kit.Out, r *kit.Rand, dir string, idx int, mode, ending, body str
 				select {
 				case <-release:
 				case <-time.After(20 * time.Second):
+				}
+			case "first-never-finishes":
+				if firstBody.CompareAndSwap(false, true) {
+					select {
+					case <-release:
+					case <-time.After(20 * time.Second):
+					}
 				}
 			}
 			finishedN.Add(1)
@@ -99,8 +114,12 @@ func oneRun(o *kit.Out, r *kit.Rand, dir string, idx int, mode, ending, body str
 		}
 	case "trigger-duration":
 		opts.MaxDuration = 3 * time.Second // the trigger's own total duration (120-240ms) ends the run
+	case "limit-straggler":
+		opts.MaxIterations = uint64(r.Range(2, 12))
+		opts.Concurrency = int(r.Range(2, 6))
+		opts.MaxDuration = 400 * time.Millisecond
 	}
-	if body == "never-finish" {
+	if body == "never-finish" || body == "first-never-finishes" {
 		wait = 150 * time.Millisecond // completion timeout must cut the wait short
 	}
 	if body == "block-until-after-end" {
@@ -131,7 +150,7 @@ func oneRun(o *kit.Out, r *kit.Rand, dir string, idx int, mode, ending, body str
 		return
 	}
 	startedAtReturn := startedN.Load()
-	timedOut := body == "never-finish" && startedAtReturn > finishedN.Load()
+	timedOut := (body == "never-finish" || body == "first-never-finishes") && startedAtReturn > finishedN.Load()
 	// nothing starts after the return (unless the completion timeout expired: then iterations may still be running, but none may START either)
 	time.Sleep(60 * time.Millisecond)
 	lateStarts := startedN.Load() - startedAtReturn
